@@ -1569,9 +1569,16 @@ def shapeOK : List Tok → Bool
      | _ => shapeOK rest)
   | _ :: rest => shapeOK rest
 
+/-- well-formedness as far as the parser's image is concerned: single bytes and error tokens
+    carry no content -/
+def Tok.wfI : Tok → Bool
+  | .ch _ => true
+  | .bad _ => true
+  | t => t.wf
+
 /-- a token list the lexer can have produced, as far as the parser's image is concerned: every
     token well-formed, interpolation tokens in lexer order (decidable) -/
-def goodB (ts : List Tok) : Bool := ts.all Tok.wf && shapeOK ts
+def goodB (ts : List Tok) : Bool := ts.all Tok.wfI && shapeOK ts
 
 /-- `Spaced q`: the printed text of `q` satisfies the adjacency condition (decidable) -/
 def Spaced (q : Query) : Bool := itemsOK none false [] (itemsQ q)
